@@ -323,6 +323,27 @@ func paramFields(fn *ssa.Function, v ssa.Value) []string {
 				}
 			}
 		}
+		if ph, ok := x.(*ssa.Phi); ok {
+			allConst := true
+			for _, e := range ph.Edges {
+				if _, isC := e.(*ssa.Const); !isC {
+					allConst = false
+				}
+			}
+			if allConst {
+				// a flag chosen by a branch (`if m.Broadcast { b = 1 }`): control dependence on the condition
+				for _, pb := range ph.Block().Preds {
+					for d := pb; d != nil; d = d.Idom() {
+						if len(d.Instrs) > 0 {
+							if iff, isIf := d.Instrs[len(d.Instrs)-1].(*ssa.If); isIf {
+								rec(iff.Cond, d0(d))
+								break
+							}
+						}
+					}
+				}
+			}
+		}
 		if a, ok := x.(*ssa.Alloc); ok {
 			// local aggregate (e.g. the backing array of variadic arguments): what was stored into it
 			for _, r := range *a.Referrers() {
@@ -768,3 +789,5 @@ func embeds(outer, inner *types.Named) bool {
 	}
 	return rec(outer)
 }
+
+func d0(_ *ssa.BasicBlock) int { return 1 }
